@@ -175,8 +175,8 @@ End Table.
 
 (* ---- the Inodes made for boot files without directory record ------------------------------------------ *)
 
-Lemma bp_hidden_nodup s : forall es known, NoDup (ids (bp_hidden s es known)) /\
-  forall j, In j (ids (bp_hidden s es known)) -> mem j known = false.
+Lemma bp_hidden_nodup fx s ents : forall es known, NoDup (ids (bp_hidden fx s ents es known)) /\
+  forall j, In j (ids (bp_hidden fx s ents es known)) -> mem j known = false.
 Proof.
   induction es as [|[i sc] r IH]; intros known; [split; [constructor|intros j []]|]. cbn [bp_hidden].
   destruct (mem i known) eqn:Hm; [apply IH|]. destruct (IH (known ++ [i])) as [I1 I2]. cbn [ids map fst]. split.
@@ -186,8 +186,8 @@ Proof.
     apply orb_false_elim in I2. tauto.
 Qed.
 
-Lemma bp_hidden_in s j v : forall es known, In (j, v) (bp_hidden s es known) ->
-  exists sc known', In (j, sc) es /\ v = bp_newlen s known' j sc.
+Lemma bp_hidden_in fx s ents j v : forall es known, In (j, v) (bp_hidden fx s ents es known) ->
+  exists sc known', In (j, sc) es /\ v = bp_newlen fx s ents known' j sc.
 Proof.
   induction es as [|[i sc] r IH]; intros known H; [destruct H|]. cbn [bp_hidden] in H.
   destruct (mem i known).
